@@ -36,6 +36,27 @@ class Result:
                 f"{len(self.inapplicable)} inapplicable, {len(self.failed)} FAILED")
 
 
+def refactor_twins(prop: str, root: str) -> List[Tuple]:
+    """The refactoring corpus (/verif/twins/*/patch.diff: behaviour-preserving rewrites produced by independent sub-agents, each
+    confirmed against the 226 tests): every twin that touches a file this property's rules read must leave them silent."""
+    import glob
+    import re
+    from . import cli, core, loader
+    from .core import VERIF
+    try:
+        ctx = cli.run_rules(prop, root, "quick", use_cache=True)
+    except (core.AnalysisError, loader.AnchorMissing):
+        return []
+    files = {ctx.repo.funcs[q].module.relpath for q in ctx.analysed_funcs if q in ctx.repo.funcs}
+    out = []
+    for d in sorted(glob.glob(os.path.join(VERIF, "twins", "*", "patch.diff"))):
+        touched = set(re.findall(r"^\+\+\+ b/(\S+)", open(d).read(), re.M))
+        if touched & files:
+            nm = os.path.basename(os.path.dirname(d))
+            out.append((f"refactoring {nm} (independent sub-agent, behaviour-preserving)", "@patch", os.path.relpath(d, VERIF), None, None))
+    return out
+
+
 def _keys(prop: str, root: str, use_cache: bool) -> Tuple[set, Optional[str]]:
     from . import cli, core, loader
     try:
@@ -112,9 +133,16 @@ def _one_patch(prop, root, name, patch_rel, expect, base_keys) -> Dict[str, Any]
         keys, err = _keys(prop, tmp, use_cache=False)
     finally:
         shutil.rmtree(tmp, ignore_errors=True)
+    new_keys = keys - base_keys
+    if expect is None:
+        if err:
+            return {"name": name, "status": "failed", "why": f"behaviour-preserving refactoring made the analysis fail: {err}"}
+        if new_keys:
+            return {"name": name, "status": "failed",
+                    "why": f"behaviour-preserving refactoring raised {sorted(r for r, _ in new_keys)}: {sorted(k for _, k in new_keys)[0][:120]}"}
+        return {"name": name, "status": "silent"}
     if err:
         return {"name": name, "status": "failed", "why": f"seeded change made the analysis fail instead of firing: {err}"}
-    new_keys = keys - base_keys
     hit = [k for k in new_keys if k[0] == expect or k[0].startswith(expect + ".")]
     if hit:
         return {"name": name, "status": "fired", "rule": expect, "key": hit[0][1][:140]}
@@ -136,7 +164,7 @@ def variants_for(prop: str) -> List[Tuple]:
 
 def run_for(prop: str, root: str, jobs: int = 16) -> Result:
     res = Result()
-    vs = variants_for(prop)
+    vs = variants_for(prop) + refactor_twins(prop, root)
     res.total = len(vs)
     if not vs:
         return res
